@@ -10,6 +10,7 @@ EXPLANATION = (
     "ensure_scope() (the innermost scope); (3) parallel assignment: no path from a set_var call to an eval_attr call in "
     "VarElement; (4) lookup iterates the scope stack through rev() and returns at the first hit; (5) the scope is pushed "
     "before the content is processed. Undecided: textual `$name` substitution (string level)."
+    " Also: scope variables are the unfiltered attribute map; reuse overrides are read from the evaluated element."
 )
 TRUSTED = ["Vec::push/pop, slice::last_mut, Iterator::rev semantics"]
 ASSUMPTIONS = ["errors of an element are retried by process_tags, so an Err exit is an ordinary exit for scoping purposes"]
